@@ -26,6 +26,7 @@ def run(ctx: Ctx) -> None:
     _placement.rule_noise_placement(ctx)
     from ..rules import effects as _eff
     _eff.rule_weighted_fidelity(ctx)
+    _eff.rule_pauli_tags(ctx)
     from .c07 import rule_wrappers
     rule_wrappers(ctx)  # the mixed-stabilizer gate methods are what a noisy simulation runs; they must agree with the pure ones
     from ..rules import memo as _memo
@@ -58,6 +59,8 @@ def run(ctx: Ctx) -> None:
 
 
 KNOCKOUTS = [
+    Knockout("pauli-error-y-applies-z-on-dm", NM, sub_once('                error_op = dmf.get_one_qubit_gate(n_quantum, reg_list[0], dmf.sigmay())', '                error_op = dmf.get_one_qubit_gate(n_quantum, reg_list[0], dmf.sigmaz())'), "noise.pauli-tags", "tag Y applies"),
+    Knockout("pauli-error-tag-test-inverted", NM, sub_once('            if pauli_error == "X":\n                state_rep.apply_sigmax(reg_list[0])', '            if pauli_error != "X":\n                state_rep.apply_sigmax(reg_list[0])'), "noise.pauli-tags", "tag"),
     Knockout("placement-both-after-or", CBASE, sub_once("                        if after_control and after_target:", "                        if after_control or after_target:"), "noise.placement", "noise must be applied once"),
     Knockout("placement-one-qubit-before-branch-order", CBASE, sub_once("                        else:\n                            self._apply_additional_noise(\n                                state, op, circuit.n_quantum, q_index\n                            )\n                            self.compile_one_gate(\n                                state,\n                                op,\n                                circuit.n_quantum,\n                                q_index,\n                                classical_registers,\n                            )\n                    elif isinstance(op.noise, nm.ReplacementNoiseBase):", "                        else:\n                            self.compile_one_gate(\n                                state,\n                                op,\n                                circuit.n_quantum,\n                                q_index,\n                                classical_registers,\n                            )\n                            self._apply_additional_noise(\n                                state, op, circuit.n_quantum, q_index\n                            )\n                    elif isinstance(op.noise, nm.ReplacementNoiseBase):"), "noise.placement", "before the gate"),
     Knockout("placement-no-noise-requires-both-conditions", CBASE, sub_once("                no_noise = no_noise or isinstance(op.noise, nm.NoNoise)", "                no_noise = no_noise and isinstance(op.noise, nm.NoNoise)"), "noise.placement", "compile:"),
